@@ -23,7 +23,7 @@ for pid in sorted(registry.PROPS):
             category="model_checking",
             text=("Bounded model checking (Kani 0.68 / CBMC 6.11 / CaDiCaL) of the real compiled code: " + p["explanation"]
                   + " Holds for every input inside the stated bound; nothing is claimed outside it. Bounds: " + p["bounds"]),
-            design_ref="DESIGN.md section 3, " + pid,
+            design_ref="DESIGN.md sections 3 (plan), 7 (driver) and 11 (as built), " + pid,
         ),
         level_note=("Trusted: Kani's MIR->goto translation and std models, CBMC, CaDiCaL, the hand-written oracles in "
                     "/verif/kani. Outside the claim: " + p["outside"] + ". Assumptions: " + "; ".join(p["assumptions"])),
